@@ -301,14 +301,30 @@ def run_platform(scn):
     checks = 0
     acc = rej = 0
     for rq in scn["reqs"]:
+        before = list(cm.available)
+        n_matched = len(cm.matched)
+        # the resource a request (name, number) denotes: the first one still available with that name (and that number, if given)
+        want = next((r for r in before if r[0] == rq.get("name") and (rq.get("number") is None or r[1] == rq["number"])), None)
         try:
             if rq["op"] == "request":
                 obj = cm.request(rq["name"], rq["number"], loose=rq["loose"])
+                checks += 1
                 if obj is None:
                     rej += 1
+                    if want is not None:
+                        V("request_refused_wrongly", rq["name"], "request(%r, %r, loose) returned None although %r is available" % (rq["name"], rq["number"], want[:2]))
                     continue
+                got = cm.matched[-1][0] if len(cm.matched) > n_matched else None
+                if got is not want:
+                    V("wrong_resource_granted", rq["name"], "request(%r, %r) was granted %r; the resource it denotes is %s"
+                      % (rq["name"], rq["number"], got[:2] if got else None, "%r" % (want[:2],) if want else "not available (already granted or absent): the request must be refused"))
             elif rq["op"] == "request_all":
                 cm.request_all(rq["name"])
+                checks += 1
+                new = [r for r, _ in cm.matched[n_matched:]]
+                # (request_all takes the numbers 0, 1, 2, ... until one is missing)
+                if [r[:2] for r in new] != [(rq["name"], i) for i in range(len(new))]:
+                    V("wrong_resource_granted", rq["name"], "request_all(%r) granted %s" % (rq["name"], [r[:2] for r in new]))
             elif rq["op"] == "lookup":
                 obj = cm.lookup_request(rq["name"], rq["number"], loose=rq["loose"])
                 checks += 1
